@@ -78,6 +78,19 @@ STYLES['performance'] = (
     'keepdims=True <-> explicit None indexing; assert messages, comments and docstrings updated to match. Keep every normalisation, floor, copy, transpose, reshape and guard that '
     'exists - move them, wrap them, but do not drop, duplicate or weaken them.')
 
+STYLES['modern'] = (
+    'Apply 14 to 20 independent, realistic, BEHAVIOUR-PRESERVING edits that MODERNISE the code for NumPy 2.x and current Python, spread over as many of the listed functions as possible. '
+    'Use for example (check with `/venv/bin/python -c "import numpy as np; print(np.__version__)"` what exists): `x.mT` / `np.matrix_transpose(x)` / `np.linalg.matrix_transpose` for '
+    'swapaxes(-1, -2); `np.permute_dims` for transpose; `np.linalg.vecdot(a, b)` (conjugates its FIRST argument - use it only where that is exactly what the code does) / '
+    '`np.vecdot`; `np.linalg.vector_norm(x, axis=-1, keepdims=True)` / `np.linalg.matrix_norm`; `np.linalg.outer` only for 1-D operands; `np.linalg.diagonal` / `np.linalg.trace` '
+    '(they act on the LAST two axes); `np.concat`; `np.pow`; `np.astype(x, dtype)`; `np.argmax(..., keepdims=True)`; `np.take_along_axis`; `np.broadcast_shapes`; `np.unstack`; '
+    '`np.cumulative_sum`; `np.isdtype(x.dtype, "complex floating")` for np.iscomplexobj where exact; `np.finfo(x.dtype).smallest_normal` for `.tiny`; `np.divide(..., where=)`; '
+    '`np.errstate` as decorator only if nothing changes; `math.prod` / `math.comb` / `math.perm` / `math.isqrt` for integer shape arithmetic; `operator.index`; the walrus operator; '
+    '`match` statements for option strings (`match scaling: case None: ... case "trace": ... case _: raise ValueError`); structural unpacking (`*lead, n, d = y.shape`); '
+    'f-strings with `=`; `dataclasses.replace(model, field=value)` to build a changed copy of a model (NOT attribute assignment); `functools.cache` for pure helpers that return '
+    'ints / tuples; `itertools.pairwise` / `zip(..., strict=True)` / `itertools.batched` where exactly equivalent; `typing` annotations; `pathlib`-free. Keep every normalisation, floor, '
+    'copy, conjugation, transpose and reshape that exists - respell them, do not drop, duplicate or weaken them; keep dtypes and shapes of all results identical.')
+
 TEMPLATE = '''You are helping to evaluate a static-analysis based verification tool for the Python library fgnt/pb_bss (EM mixture models, beamformers, permutation alignment, masks, metrics). The tool must NOT raise alarms on code whose behaviour is unchanged. Your job is to act as a careful maintainer who REFACTORS code WITHOUT changing behaviour, so that we can test the tool for false alarms.
 
 Work ONLY inside your own scratch git worktree of the library: {wt} (package directory {wt}/pb_bss). Do NOT read or write anything under /verif or /repo. Do not commit. Never use `git stash` (it is shared between worktrees).
